@@ -166,7 +166,37 @@ func enginePoison() {
 		t.ExecuteWriterUnbuffered(ctx, &recWriter{failAt: 1 + i%3, err: errPoison, short: i % 4})
 		t.ExecuteWriter(ctx, &recWriter{failAt: 1, err: errPoison, full: true})
 	}
+	// executions that are broken off by a panic which the caller recovers (net/http does that for its handlers):
+	// a panicking context function after some output, and a writer that panics (http.ErrAbortHandler)
+	pctx := pongo2.Context{"plist": []int{1, 1, 2}, "pmissing": "/p_no_such_file.tpl", "pfail": func() (string, error) { panic("poison: panic in a context function") }}
+	for i, t := range poisonTpls {
+		for ep := 0; ep < 5; ep++ {
+			func() {
+				defer func() { recover() }()
+				switch ep {
+				case 0:
+					t.Execute(pctx)
+				case 1:
+					t.ExecuteBytes(pctx)
+				case 2:
+					t.ExecuteWriter(pctx, &bytes.Buffer{})
+				case 3:
+					t.ExecuteWriterUnbuffered(pctx, &bytes.Buffer{})
+				default:
+					if i%2 == 0 {
+						t.ExecuteWriter(ctx, panicWriter{})
+					} else {
+						t.ExecuteWriterUnbuffered(ctx, panicWriter{})
+					}
+				}
+			}()
+		}
+	}
 }
+
+type panicWriter struct{}
+
+func (panicWriter) Write(p []byte) (int, error) { panic("poison: panic in the caller's writer") }
 
 var errPoison = fmt.Errorf("poison: deliberate failure")
 
